@@ -18,6 +18,8 @@ pub struct Ctl {
     /// called (once) when a mutating operation touches a path containing `callback_path`
     pub callback_path: String,
     pub callback: Option<Arc<dyn Fn() + Send + Sync>>,
+    /// number of upcoming size queries (`len`) on file handles that fail
+    pub fail_len: usize,
 }
 
 #[derive(Clone)]
@@ -41,6 +43,9 @@ impl FaultFs {
         let mut c = self.ctl.lock().unwrap();
         c.callback_path = path_contains.to_string();
         c.callback = Some(cb);
+    }
+    pub fn fail_next_len(&self, n: usize) {
+        self.ctl.lock().unwrap().fail_len = n;
     }
     pub fn disarm(&self) {
         self.ctl.lock().unwrap().fail_at = 0;
@@ -105,6 +110,14 @@ impl ReadonlyRandomAccessFile for FFile {
         self.inner.read_from(buf, offset)
     }
     fn len(&self) -> Result<u64> {
+        {
+            let mut c = self.ctl.lock().unwrap();
+            if c.fail_len > 0 {
+                c.fail_len -= 1;
+                c.failures += 1;
+                return Err(Error::new(ErrorKind::Other, "injected fault (len)"));
+            }
+        }
         self.inner.len()
     }
 }
